@@ -1,7 +1,8 @@
 PROP = dict(
     id='C17', level='proof',
     pyvc=['contracts.c17'],
-    bounded=None,
+    bounded='bounded.c17',
+    bounded_budget=dict(quick=45, thorough=420),
     assumptions=[],
     trusted_base=['z3 5.1 / cvc5 1.0.3', 'pyvc symbolic executor (DESIGN.md §2)'],
     manifest=dict(text='TODO', note='TODO', technique='contract-based deductive verification (pyvc)'),
